@@ -24,6 +24,10 @@ CHECKS = {
   text="Bounded exhaustive enumeration on the real `rg --files`: a tree P/R/S (above the root, the root, a subdirectory) with file, hidden-file and directory probes; every single rule and every conflicting pair of rules (thorough: half of all triples on the file probe) over the seven rule sources x placements x ignore/whitelist x repository placement (.git nowhere / above the root / at the root) with and without --no-require-git; every rule x every filtering flag alone and in pairs (--hidden, --no-ignore*, -u/-uu/-uuu); -t/-T with --type-add; --max-depth 0..2; the root given as '.', relative, absolute, a subdirectory, an explicit file plus a directory. Oracle: a reference model of the documented precedence.",
   note="Trusted: the reference model (DESIGN.md A.3). Patterns are plain basenames (glob semantics belong to C04/C12). With --no-require-git the repository boundary for parent .gitignore files is unspecified and follows the implementation (DESIGN.md §8).",
   tech="bounded exhaustive enumeration of rule-source assignments x flags x roots against a reference model of the documented precedence"),
+ "C06": dict(cat="exploration", ref="DESIGN.md §4 C06",
+  text="Bounded exhaustive enumeration: every tree with up to 2 nodes (quick: plus every 11th 3-node tree; thorough: all 3-node trees) over nine node kinds (directory, small / large / hidden file, symlink to file, to directory, to an ancestor (cycle), dangling, to a directory on another device) x 384 traversal configurations (max_depth, max_filesize, follow_links, same_file_system, entry filter, hidden filter, an .ignore rule; threads 2 (thorough 2/4/16)) x root variants; three-way oracle: build() == build_parallel() (same entries, exactly once, same number of error entries) == an independent recursive lister written from the documentation.",
+  note="The parallel side runs unhooked (free-running) on these walks; its schedule space is C07's subject. Scratch trees on /dev/shm, the other device is /tmp (created and removed by the run).",
+  tech="bounded exhaustive enumeration of trees x configurations with a three-way differential / reference-model oracle"),
  "C07": dict(cat="model_checking", ref="DESIGN.md §2, §3-E3, §4 C07",
   text="Stateless model checking of the real implementation: the real ignore::WalkParallel runs under a cooperative replay scheduler (feature verif-hooks) and every interleaving of its hooked synchronisation points is executed up to a preemption bound (iterative preemption bounding, CHESS style), with injected Steal::Retry answers and a visitor Quit injected at every visit index, over all small trees; oracle: termination (deadlock / livelock detection) and exact visit multiset.",
   note="Trusted: crossbeam-deque linearizability (each deque operation is one atomic step; Retry is injected), SC behaviour of the RMW/SeqCst atomics, the scheduler hook itself. Not covered: more than 3 (quick) / 4 (thorough) workers, trees above the size bound, schedules needing more preemptions than the bound.",
